@@ -564,7 +564,7 @@ func (w *World) isFreshValue(fn *ssa.Function, v ssa.Value, d int) bool {
 		if callee != nil && w.isMain(callee) && callee.Signature.Recv() == nil {
 			n := callee.Name()
 			if strings.HasPrefix(n, "New") || strings.HasPrefix(n, "Parse") || strings.HasPrefix(n, "parse") || strings.HasPrefix(n, "Create") {
-				return true
+				return !w.ctorPublishes(callee)
 			}
 		}
 	case *ssa.Extract:
@@ -917,4 +917,17 @@ func chainEscapes(v ssa.Value) ssa.Instruction {
 		}
 	}
 	return chainEscapes(call.Call.Args[0])
+}
+
+// ctorPublishes: the constructor hands the object it returns to another goroutine (go statement or a closure
+// that captures it), so the result is not private to the caller any more.
+func (w *World) ctorPublishes(fn *ssa.Function) bool {
+	pub := false
+	eachInstr(fn, func(in ssa.Instruction) {
+		switch in.(type) {
+		case *ssa.Go:
+			pub = true
+		}
+	})
+	return pub
 }
